@@ -3,6 +3,9 @@ import PegVerif.Exec.Front
 import PegVerif.Model.Compile
 import PegVerif.Model.Optimise
 import PegVerif.Model.Header
+import PegVerif.Proofs.TotalLemmas
+import PegVerif.Proofs.LinkLemmas
+import PegVerif.Proofs.AlwaysLemmas
 import PegVerif.Model.Machine
 import PegVerif.Model.Sem
 /-
@@ -60,8 +63,11 @@ def emitOne (line : String) : String :=
             ("imports", Json.arr (h.imports.map Json.str).toArray), ("hasDot", h.hasDot),
             ("hasString", h.hasString), ("hasActions", h.hasActions), ("hasPush", h.hasPush),
             ("actions", Json.mkObj (L.actions.map (fun a => (a.1, Json.str a.2))))]
+          -- the decidable hypotheses of C01_wellformed / C01_generated_parser on this grammar
+          let hyps := Json.mkObj [("wfb", WFB L.G), ("grammarOK", GrammarOK L.G), ("linkedOK", LinkedOK L.G),
+            ("plain", L.G.rules.all (fun r => r.body.plain))]
           pure (Json.mkObj [("id", id), ("rules", programJson P), ("nilCase", nilCase),
-            ("unusedLabel", unusedLabel), ("header", hj),
+            ("unusedLabel", unusedLabel), ("header", hj), ("hyps", hyps),
             ("ruleNames", Json.arr (L.G.rules.map (fun r => Json.str r.name)).toArray)])
     match res with
     | .ok v => v.compress
